@@ -240,6 +240,21 @@ func (m *Machine) callSSA2(caller *frame, pos token.Pos, fn *ssa.Function, args 
 	}
 	if fn.Synthetic == "package initializer" {
 		if !m.W.wantInit(fn.Pkg) {
+			// the package's own initialiser is not run, but packages it imports
+			// that are wanted (e.g. net -> net/netip) must still be initialised
+			if m.initSkipped == nil {
+				m.initSkipped = map[*ssa.Package]bool{}
+			}
+			if !m.initSkipped[fn.Pkg] {
+				m.initSkipped[fn.Pkg] = true
+				for _, imp := range fn.Pkg.Pkg.Imports() {
+					if ip := m.W.Prog.Package(imp); ip != nil && m.W.wantInit(ip) {
+						if f := ip.Func("init"); f != nil {
+							m.callSSA2(caller, pos, f, nil, nil)
+						}
+					}
+				}
+			}
 			return nil
 		}
 		if !m.embedsDone[fn.Pkg] {
